@@ -307,3 +307,50 @@ pub fn p_io_error_mapping() {
     assert!(matches!(IoWriteError::from(std::io::Error::from(IoErrorKind::ConnectionReset)), IoWriteError::Stopped));
     assert!(matches!(IoWriteError::from(std::io::Error::from(IoErrorKind::NotConnected)), IoWriteError::NotConnected));
 }
+
+// ---- C05: cancellation (a future dropped while Pending) ---------------------------------------------
+
+/// A leaf future that is DROPPED while `Pending` must not have taken input out of the source:
+/// whatever it took lives only in the dropped future (the driver's `select!` loop drops the
+/// control-stream readers whenever another branch completes first).
+#[kani::proof]
+#[kani::unwind(10)]
+pub fn p_get_varint_cancel_keeps_input() {
+    let data: [u8; 16] = kani::any();
+    let len: usize = kani::any();
+    let start: usize = kani::any();
+    kani::assume(len <= 16 && start <= 8 && start <= len);
+    let mut src = Src { data, pos: start, len, last: 9 };
+    let res = {
+        let mut fut = GetVarint::new(&mut src);
+        ctx_poll(&mut fut)
+        // `fut` is dropped here
+    };
+    if matches!(res, Poll::Pending) {
+        assert!(src.pos == start, "input taken by a GetVarint that is dropped while Pending is lost");
+    }
+    kani::cover!(matches!(res, Poll::Pending));
+    kani::cover!(matches!(res, Poll::Ready(Ok(_))));
+}
+
+/// Same for `GetBuffer` (destination of up to 8 bytes).
+#[kani::proof]
+#[kani::unwind(10)]
+pub fn p_get_buffer_cancel_keeps_input() {
+    let data: [u8; 16] = kani::any();
+    let len: usize = kani::any();
+    let start: usize = kani::any();
+    let want: usize = kani::any();
+    kani::assume(len <= 16 && start <= 8 && start <= len && want <= 8);
+    let mut src = Src { data, pos: start, len, last: 9 };
+    let mut storage = [0u8; 8];
+    let res = {
+        let mut fut = GetBuffer { reader: &mut src, buffer: &mut storage[..want], offset: 0 };
+        ctx_poll(&mut fut)
+    };
+    if matches!(res, Poll::Pending) {
+        assert!(src.pos == start, "input taken by a GetBuffer that is dropped while Pending is lost");
+    }
+    kani::cover!(matches!(res, Poll::Pending));
+    kani::cover!(matches!(res, Poll::Ready(Ok(()))));
+}
